@@ -25,6 +25,9 @@ const CERTS: &str = concat!(env!("CARGO_MANIFEST_DIR"), "/../fixtures/certs");
 struct TlsPeer {
     cert: Option<String>, // fixture base name, None = no client certificate
     versions: Vec<String>,
+    /// certificates sent after the peer's own one (a peer may present its whole chain)
+    #[serde(default)]
+    chain: Vec<String>,
 }
 
 #[derive(Deserialize, Clone)]
@@ -236,7 +239,14 @@ fn client_config(p: &TlsPeer) -> Result<rustls::ClientConfig, String> {
                 .map_err(|e| format!("{e:?}"))?;
             let key = rustls::pki_types::PrivateKeyDer::from_pem_file(pem_path(name, "key"))
                 .map_err(|e| format!("{e:?}"))?;
-            b.with_client_auth_cert(vec![cert], key).map_err(|e| e.to_string())
+            let mut certs = vec![cert];
+            for extra in &p.chain {
+                certs.push(
+                    rustls::pki_types::CertificateDer::from_pem_file(pem_path(extra, "cert"))
+                        .map_err(|e| format!("{e:?}"))?,
+                );
+            }
+            b.with_client_auth_cert(certs, key).map_err(|e| e.to_string())
         }
     }
 }
@@ -999,7 +1009,7 @@ async fn run_scenario(sc: &Scenario, sink: &Sink) {
                 };
                 sink.emit(json!({"e":"connected","c":st.c,"result":"ok"}));
                 let conn = if sc.variant != "tcp" && !st.silent {
-                    let peer = st.tls.clone().unwrap_or(TlsPeer { cert: Some("client_operator".into()), versions: vec!["1.2".into(), "1.3".into()] });
+                    let peer = st.tls.clone().unwrap_or(TlsPeer { cert: Some("client_operator".into()), versions: vec!["1.2".into(), "1.3".into()], chain: vec![] });
                     match client_config(&peer) {
                         Err(e) => {
                             sink.emit(json!({"e":"tls","c":st.c,"outcome":"config_error","err":e}));
